@@ -210,6 +210,13 @@ func drawEmbeddingIndex(t *rapid.T, cmds []database.Command) *embedding.Index {
 		n = rapid.IntRange(0, len(cmds)).Draw(t, "n-emb")
 	}
 	for i := 0; i < n; i++ {
+		if i > 0 && rapid.IntRange(0, 3).Draw(t, "near-equal-emb") == 0 {
+			// almost the embedding of the entry before (near-duplicate commands): similarities a hair apart
+			v := append([]float32(nil), idx.CmdEmbeddings[i-1]...)
+			v[rapid.IntRange(0, dim-1).Draw(t, "nudge-at")] += rapid.SampledFrom([]float32{1e-5, -1e-5, 1e-7, 3e-6}).Draw(t, "nudge")
+			idx.CmdEmbeddings = append(idx.CmdEmbeddings, v)
+			continue
+		}
 		if rapid.IntRange(0, 4).Draw(t, "zero-emb") == 0 {
 			idx.CmdEmbeddings = append(idx.CmdEmbeddings, make([]float32, dim)) // a command without any known word
 		} else {
